@@ -260,7 +260,14 @@ type State struct {
 	Depth  int    `json:"depth"`
 	Hops   int    `json:"hops"`
 	DC     bool   `json:"dc,omitempty"`
-	CT     string `json:"ct,omitempty"` // Content-Type header, "" = none
+	CT     string `json:"ct,omitempty"`  // Content-Type header, "" = none
+	Srv    string `json:"srv,omitempty"` // Server header, "" = none
+	// how the body reaches archiver.ProcessBody: white space (ignored by the parser) written after
+	// the doctype to bring the document to a given size with the references at its END; the kind
+	// of reader behind http.Response.Body; Content-Length announced or not
+	Pad int    `json:"pad,omitempty"`
+	Rd  string `json:"rd,omitempty"` // "" plain (data, then 0+EOF), dataerr (last data together with EOF, as net/http does), half, onebyte
+	CL  bool   `json:"cl,omitempty"`
 }
 
 type Case struct {
@@ -463,6 +470,9 @@ func (c *Case) render() string {
 		b.WriteString("<!doctype html>\n")
 	case 3:
 		b.WriteString(`<!DOCTYPE html PUBLIC "-//W3C//DTD XHTML 1.0 Transitional//EN" "http://www.w3.org/TR/xhtml1/DTD/xhtml1-transitional.dtd">` + "\n")
+	}
+	if c.St.Pad > 0 {
+		b.WriteString(strings.Repeat("  \n\t \n", c.St.Pad/6+1)[:c.St.Pad])
 	}
 	b.WriteString("<html><head>")
 	for i, k := range c.Head {
